@@ -7,7 +7,6 @@ import (
 	"fmt"
 	"os"
 	"path/filepath"
-	"strings"
 
 	"github.com/spf13/cobra"
 )
@@ -42,7 +41,7 @@ var rmCmd = &cobra.Command{
 		for _, arg := range args {
 			// check if the arg is registered in the Index
 			cleanedArg := filepath.Clean(arg)
-			cleanedArg = strings.ReplaceAll(cleanedArg, `\`, "/")
+			cleanedArg = filepath.ToSlash(cleanedArg)
 
 			_, _, isRegistered := client.Idx.GetEntry([]byte(cleanedArg))
 			isRegisteredAsDir := client.Idx.IsRegisteredAsDirectory(cleanedArg)
@@ -55,7 +54,7 @@ var rmCmd = &cobra.Command{
 		// remove file from working tree and index
 		for _, arg := range args {
 			cleanedArg := filepath.Clean(arg)
-			cleanedArg = strings.ReplaceAll(cleanedArg, `\`, "/")
+			cleanedArg = filepath.ToSlash(cleanedArg)
 
 			// a tracked directory: exactly the tracked files beneath it (untracked files stay)
 			if client.Idx.IsRegisteredAsDirectory(cleanedArg) {
